@@ -188,6 +188,8 @@ def shapes():
     add('ReduceNoArgsNoState', lambda x: V.ReduceNoArgsNoState(), False)
     add('DictItemsOnly', lambda x: _setitems(V.DictItemsOnly(), [('k', x), ('j', 1)]))
     add('SetItemDict', lambda x: _setitems(V.SetItemDict(), [('k', 'v1'), ('j', x if isinstance(x, str) else 'v2')]))
+    add('CopyregArgs', lambda x: _set(V.CopyregArgs(x), scratch=x))
+    add('CopyregState', lambda x: _ext(V.CopyregState(x), [x, 1]))
     add('ListSub', lambda x: _set(_ext(V.ListSub(), [x, 'i']), attr=x))
     add('DictSub', lambda x: _set(_upd(V.DictSub(), {'k': x}), attr=1))
     add('SetSub', lambda x: _set(V.SetSub([1, 'a']), attr=x))
